@@ -29,6 +29,7 @@ import (
 
 	"github.com/gagliardetto/solana-go"
 	"github.com/ipfs/go-cid"
+	cidlink "github.com/ipld/go-ipld-prime/linking/cid"
 	"github.com/rpcpool/yellowstone-faithful/blocktimeindex"
 	"github.com/rpcpool/yellowstone-faithful/bucketteer"
 	"github.com/rpcpool/yellowstone-faithful/carreader"
@@ -644,6 +645,18 @@ func c12Jobs(s *c12Seeds, cases []c12Case, seed int64, quick bool) []c12Job {
 				add(fmt.Sprintf("byte@%d=%#02x", o, v), "byteset", func() []byte { x := append([]byte{}, data...); x[o] = v; return x })
 			}
 		}
+		// structure-aware CBOR mutation: every (nested) data item replaced as a whole by a null, a number, an empty string /
+		// list, a boolean, a degenerate link - the node stays well-formed CBOR with a wrong item in one position
+		if tg.cbor {
+			for _, sp := range c12cborItems(data) {
+				for k, sub := range c12ItemSubst {
+					sp, sub := sp, sub
+					add(fmt.Sprintf("item@%d-%d:=%d", sp[0], sp[1], k), "cbor-item", func() []byte {
+						return append(append(append([]byte{}, data[:sp[0]]...), sub...), data[sp[1]:]...)
+					})
+				}
+			}
+		}
 		// chunk operations: delete / duplicate / zero / randomise a chunk, insert random bytes
 		nChunk := 150 * scale
 		if tg.heavy {
@@ -719,6 +732,64 @@ func c12Jobs(s *c12Seeds, cases []c12Case, seed int64, quick bool) []c12Job {
 	}
 	return jobs
 }
+
+// c12cborItems returns the [start, end) spans of every (nested) data item of a definite-length CBOR encoding
+func c12cborItems(b []byte) (spans [][2]int) {
+	var walk func(p int) int
+	walk = func(p int) int {
+		if p >= len(b) {
+			return -1
+		}
+		start := p
+		major, info := b[p]>>5, b[p]&0x1f
+		p++
+		var arg uint64
+		switch {
+		case info < 24:
+			arg = uint64(info)
+		case info == 24 && p+1 <= len(b):
+			arg, p = uint64(b[p]), p+1
+		case info == 25 && p+2 <= len(b):
+			arg, p = uint64(binary.BigEndian.Uint16(b[p:])), p+2
+		case info == 26 && p+4 <= len(b):
+			arg, p = uint64(binary.BigEndian.Uint32(b[p:])), p+4
+		case info == 27 && p+8 <= len(b):
+			arg, p = binary.BigEndian.Uint64(b[p:]), p+8
+		default:
+			return -1
+		}
+		switch major {
+		case 2, 3:
+			if arg > uint64(len(b)-p) {
+				return -1
+			}
+			p += int(arg)
+		case 4:
+			for i := uint64(0); i < arg; i++ {
+				if p = walk(p); p < 0 {
+					return -1
+				}
+			}
+		case 5:
+			for i := uint64(0); i < 2*arg; i++ {
+				if p = walk(p); p < 0 {
+					return -1
+				}
+			}
+		case 6:
+			if p = walk(p); p < 0 {
+				return -1
+			}
+		}
+		spans = append(spans, [2]int{start, p})
+		return p
+	}
+	walk(0)
+	return spans
+}
+
+// whole-item replacements: null, 0, -1, empty bytes, empty text, empty list, true, a link tag around empty bytes
+var c12ItemSubst = [][]byte{{0xf6}, {0x00}, {0x20}, {0x40}, {0x60}, {0x80}, {0xf5}, {0xd8, 0x2a, 0x40}, {0xd8, 0x2a, 0x41, 0x00}, {0x1b, 0xff, 0xff, 0xff, 0xff, 0xff, 0xff, 0xff, 0xff}, {0x3b, 0xff, 0xff, 0xff, 0xff, 0xff, 0xff, 0xff, 0xff}}
 
 func c12Magic(s *c12Seeds, parser string) []byte {
 	switch {
@@ -1025,8 +1096,11 @@ func c12Run(s *c12Seeds, job c12Job, data []byte, scratch string) (res string) {
 		_, err := parseNodeFromSection(data, nil)
 		note(err)
 	case p == "node":
-		_, err := iplddecoders.DecodeAny(data)
+		v, err := iplddecoders.DecodeAny(data)
 		note(err)
+		if err == nil {
+			c12UseNode(v)
+		}
 		iplddecoders.DecodeEpoch(data)
 		iplddecoders.DecodeSubset(data)
 		iplddecoders.DecodeBlock(data)
@@ -1103,6 +1177,49 @@ func c12Run(s *c12Seeds, job c12Job, data []byte, scratch string) (res string) {
 		panic("unknown parser " + p)
 	}
 	return
+}
+
+// c12UseNode follows the links of a successfully decoded node with the same unchecked assertions the server code uses
+// (x.(cidlink.Link).Cid on every link of Epoch.Subsets, Subset.Blocks, Block.Entries / Rewards, Entry.Transactions,
+// DataFrame.Next): a decoder that lets a non-link through makes these panic
+func c12UseNode(v any) {
+	links := func(l ipldbindcode.List__Link) {
+		for _, x := range l {
+			_ = x.(cidlink.Link).Cid
+		}
+	}
+	frame := func(f *ipldbindcode.DataFrame) {
+		if n, ok := f.GetNext(); ok {
+			links(n)
+		}
+		f.GetHash()
+		f.GetIndex()
+		f.GetTotal()
+		_ = f.Bytes()
+	}
+	switch x := v.(type) {
+	case *ipldbindcode.Epoch:
+		links(x.Subsets)
+	case *ipldbindcode.Subset:
+		links(x.Blocks)
+	case *ipldbindcode.Block:
+		links(x.Entries)
+		_ = x.Rewards.(cidlink.Link).Cid
+		x.GetBlockHeight()
+		for _, s := range x.Shredding {
+			_, _ = s.EntryEndIdx, s.ShredEndIdx
+		}
+	case *ipldbindcode.Entry:
+		links(x.Transactions)
+	case *ipldbindcode.Transaction:
+		frame(&x.Data)
+		frame(&x.Metadata)
+		x.GetPositionIndex()
+	case *ipldbindcode.Rewards:
+		frame(&x.Data)
+	case *ipldbindcode.DataFrame:
+		frame(x)
+	}
 }
 
 // ---- child ----------------------------------------------------------------------------------------------------------
